@@ -25,7 +25,7 @@ import (
 func init() {
 	Registry["C16"] = &Check{
 		Scenarios: c16Scenarios,
-		Rule: "the version octet of the request rotates over {1, 0, 2, 255}: the answer is built as a version-1 message; requests no handler is registered for (STR, CCR, RAR, an undefined command; P bit set / clear; T bit) on a bare ServeMux and on a state machine after the handshake: whatever the library sends back must mirror the request; complete grid: hop-by-hop and end-to-end ids from {0,1,2^31,2^32-1}^2 x all 256 command flag bytes x every (application, command) of the embedded dictionaries x result code {0 (none asked), 2001, 5012, 2^32-1} through Message.Answer; a second CER on a connection whose handshake has completed (if it is answered, the answer must mirror it); the state machine's success CEA, each failure CEA (5010, 5017, 5012, and 5012 for a CER that cannot be unmarshalled because the connection's dictionary lacks an AVP the CER struct names) and DWA for the same id grid over an in-memory transport; the same requests arriving on SCTP streams {0,1,5,15} of the in-memory multistream backend (and on a stream-less transport), answered by a handler through Answer().WriteTo (answers of ordinary size and of 65400..200000 octets, around and beyond 64 KiB; requests with one AVP and requests that consist of their header only; requests that are first relayed - the received message written with explicit other streams to an upstream multistream writer that accepts or refuses - and then answered; replies on a connection whose writer stream the application has pinned with SetWriterStream) and by the state machine: the backend must record the answer on the request's stream, also when the answer to a request is written later, while a request from another stream is being handled (all 16 stream pairs), also when the first 1 or 2 write attempts of that answer fail with a temporary error and are retried (WriteToWithRetry); and two application goroutines answering requests of different streams concurrently (every schedule up to preemption bound 2, thorough 3), on an association attached with NewConn and on one accepted by a Server with ReadTimeout and WriteTimeout set.",
+		Rule: "the client side of a multistream association dialled with sm.Client (watchdog on / off, WatchdogStream 0 / 5) answers the peer's DWR on the stream it arrived on; the version octet of the request rotates over {1, 0, 2, 255}: the answer is built as a version-1 message; requests no handler is registered for (STR, CCR, RAR, an undefined command; P bit set / clear; T bit) on a bare ServeMux and on a state machine after the handshake: whatever the library sends back must mirror the request; complete grid: hop-by-hop and end-to-end ids from {0,1,2^31,2^32-1}^2 x all 256 command flag bytes x every (application, command) of the embedded dictionaries x result code {0 (none asked), 2001, 5012, 2^32-1} through Message.Answer; a second CER on a connection whose handshake has completed (if it is answered, the answer must mirror it); the state machine's success CEA, each failure CEA (5010, 5017, 5012, and 5012 for a CER that cannot be unmarshalled because the connection's dictionary lacks an AVP the CER struct names) and DWA for the same id grid over an in-memory transport; the same requests arriving on SCTP streams {0,1,5,15} of the in-memory multistream backend (and on a stream-less transport), answered by a handler through Answer().WriteTo (answers of ordinary size and of 65400..200000 octets, around and beyond 64 KiB; requests with one AVP and requests that consist of their header only; requests that are first relayed - the received message written with explicit other streams to an upstream multistream writer that accepts or refuses - and then answered; replies on a connection whose writer stream the application has pinned with SetWriterStream) and by the state machine: the backend must record the answer on the request's stream, also when the answer to a request is written later, while a request from another stream is being handled (all 16 stream pairs), also when the first 1 or 2 write attempts of that answer fail with a temporary error and are retried (WriteToWithRetry); and two application goroutines answering requests of different streams concurrently (every schedule up to preemption bound 2, thorough 3), on an association attached with NewConn and on one accepted by a Server with ReadTimeout and WriteTimeout set.",
 		Assume: []string{"single default schedule per exchange", "in-memory SCTP backend (hook diam/sctp_verif.go)"},
 		QuickBudget: 120, ThoroughBudget: 900,
 	}
@@ -45,6 +45,7 @@ func c16Scenarios(tier string) []*Scenario {
 	}
 	out = append(out, &Scenario{Name: "state-machine/second-cer", Seq: c16SecondCER})
 	out = append(out, &Scenario{Name: "unhandled-requests", Seq: c16Unhandled})
+	out = append(out, &Scenario{Name: "state-machine/client-side-dwa", Seq: c16ClientDWA})
 	out = append(out, &Scenario{Name: "streams/handler-answer", Seq: c16Streams})
 	out = append(out, &Scenario{Name: "streams/deferred-answer", Seq: c16Deferred})
 	cb := 2
@@ -751,5 +752,74 @@ func c16Unhandled(r *SeqResult) {
 	}
 	if r.Sample == "" {
 		r.Sample = "unhandled STR / CCR / RAR / undefined command, P bit set and clear, on a bare ServeMux and on a state machine after the handshake: whatever comes back must mirror the request"
+	}
+}
+
+// c16ClientDWA: the state machine answers a peer's DWR on the CLIENT side of a multistream
+// association too (the connection was dialled with sm.Client, watchdog on or off, with its own
+// WatchdogStream): the DWA mirrors the DWR and goes out on the stream the DWR arrived on.
+func c16ClientDWA(r *SeqResult) {
+	for _, watchdog := range []bool{false, true} {
+		for _, wdStream := range []uint{0, 5} {
+			for _, stream := range []uint16{0, 3, 5, 9} {
+				for _, hbh := range c16IDs {
+					watchdog, wdStream, stream, hbh := watchdog, wdStream, stream, hbh
+					var be *vnet.SCTP
+					dialOK := false
+					s := vs.Run(nil, false, 2*time.Second, false, func() {
+						be = vnet.NewSCTP("C")
+						mach := sm.New(c16Settings())
+						cli := &sm.Client{Handler: mach, Dict: dict.Default, MaxRetransmits: 0, RetransmitInterval: time.Second,
+							EnableWatchdog: watchdog, WatchdogInterval: time.Hour, WatchdogStream: wdStream,
+							AuthApplicationID: []*diam.AVP{diam.NewAVP(avp.AuthApplicationID, avp.Mbit, 0, datatype.Unsigned32(4))}}
+						vs.GoNamed("peer", true, func() {
+							vs.BlockObj("wait-cer", be, func() bool { return len(be.Writes) > 0 || be.Closed })
+							if len(be.Writes) == 0 {
+								return
+							}
+							cer, _ := refcodec.DecodeHeader(be.Writes[0].Data)
+							be.Deliver(be.Writes[0].Stream, refcodec.EncodeMessage(refcodec.Header{Version: 1, Code: 257, HbH: cer.HbH, E2E: cer.E2E}, []refcodec.Node{
+								u32avp(268, 2001), ident(264, "srv"), ident(296, "realm"), {Code: 257, Flags: 0x40, Payload: refcodec.Address(1, []byte{10, 0, 0, 1})},
+								u32avp(266, 13), {Code: 269, Payload: []byte("p")}, u32avp(258, 4)}))
+							vs.BlockObj("wait-dial", be, func() bool { return dialOK || be.Closed })
+							be.Deliver(stream, refcodec.EncodeMessage(refcodec.Header{Version: 1, Flags: 0x80, Code: 280, HbH: hbh, E2E: 0x42}, []refcodec.Node{ident(264, "srv"), ident(296, "realm")}))
+						})
+						c, err := cli.NewConn(diam.NewSCTPConnBackend(be), "peer")
+						dialOK = c != nil && err == nil
+						vs.Touch(be, "dialled")
+						vs.BlockObj("wait-dwa", be, func() bool { return len(be.Writes) >= 2 || be.Closed })
+					})
+					s.Teardown()
+					r.Cases++
+					r.Distinct++
+					if r.Violation != "" {
+						continue
+					}
+					v := ""
+					switch {
+					case !dialOK:
+						v = "harness: the dial failed"
+					case len(be.Writes) < 2:
+						v = "the peer's DWR was not answered"
+					default:
+						w := be.Writes[1]
+						h, _ := refcodec.DecodeHeader(w.Data)
+						switch {
+						case h.Code != 280 || h.Flags&0x80 != 0 || h.HbH != hbh || h.E2E != 0x42:
+							v = fmt.Sprintf("the answer {code %d flags %#x ids %#x/%#x} does not mirror the DWR", h.Code, h.Flags, h.HbH, h.E2E)
+						case w.Stream != stream:
+							v = fmt.Sprintf("the DWR arrived on stream %d but its DWA was written to stream %d", stream, w.Stream)
+						}
+					}
+					if v != "" {
+						r.Violation = fmt.Sprintf("client side (watchdog enabled: %v, WatchdogStream %d), peer's DWR on stream %d with hop-by-hop %#x: %s", watchdog, wdStream, stream, hbh, v)
+						r.Case = map[string]interface{}{"watchdog": watchdog, "wdStream": wdStream, "stream": stream, "hbh": hbh}
+					}
+				}
+			}
+		}
+	}
+	if r.Sample == "" {
+		r.Sample = "sm.Client over a multistream association; the peer sends a DWR on another stream than the client's WatchdogStream"
 	}
 }
